@@ -25,7 +25,7 @@ func runC01(r *Run, p *Prog) {
 		r.Unresolved("R4", "connection loop (go target of a serving function) / Service.HandleMessage")
 		return
 	}
-	H := cg.Reach(ro.ConnLoop, false)
+	H := cg.Reach(ro.ConnEntry, false)
 	wset := map[ssa.Instruction]bool{}
 	for _, w := range ro.WSites {
 		wset[w.Instr] = true
